@@ -570,6 +570,7 @@ func (c *Ctx) c05Flags() {
 	c.c05KillOnEveryPath()
 	c.c05CancelKillsTheTreeFirst()
 	c.c05MarkedRunningBeforeAnythingThatMayBlock()
+	c.c05CommandDroppedOnlyWhenNotRunning()
 	// P6 monitor goroutine
 	if f := c.fn(spPkg, "(*subprocessMonitoring).runProcessMonitoring"); f != nil {
 		var body *ssa.Function
@@ -876,4 +877,88 @@ func (c *Ctx) c05MarkedRunningBeforeAnythingThatMayBlock() {
 	}
 	c.check(bad == "", "P12", fname(f)+"/marked-running-first", c.ipos(marks[0]), "no call on the messaging object can be followed by the store of true into isRunning",
 		"the process exists but is not yet marked as running while Start() calls into the caller's loggers ("+bad+"): a Stop(), or the monitoring goroutine after a cancellation, arriving while such a logger is busy finds IsOn() false, returns at once and kills nothing — the tree keeps running after Stop() returned, or the leader is never waited for")
+}
+
+// c05CommandDroppedOnlyWhenNotRunning (P13): the stop path finds the process tree through the command the subprocess keeps
+// (cmdWrapper: the exec.Cmd with its pid). The spawn paths drop that command to build a new one — which is right only
+// where the subprocess was found not to be running, under the lock: a second Start() that passed the unlocked look at
+// IsOn() together with the first one would otherwise forget the command of the tree the first one has just started, and
+// Stop()/Restart() then "stop" a fresh command that was never started while the real tree keeps running.
+func (c *Ctx) c05CommandDroppedOnlyWhenNotRunning() {
+	c.rule("P13", "on the spawn paths (Start, Execute) the kept command is reset only where IsOn() was found false after the lock was taken: a live tree's command is never forgotten", 2)
+	resets := func(g *ssa.Function, depth int) bool { return false }
+	var resetsRec func(g *ssa.Function, depth int) bool
+	resetsRec = func(g *ssa.Function, depth int) bool {
+		if g == nil || g.Blocks == nil || depth > 1 {
+			return false
+		}
+		found := false
+		allInstrs(g, func(in ssa.Instruction) {
+			if cc := callCommon(in); cc != nil {
+				if h := staticCallee(cc); h != nil && h.Name() == "Reset" && h.Signature.Recv() != nil && strings.Contains(h.Signature.Recv().Type().String(), "subprocess.command") {
+					found = true
+				}
+			}
+		})
+		return found
+	}
+	resets = resetsRec
+	for _, name := range []string{"(*Subprocess).Start", "(*Subprocess).Execute"} {
+		f := c.fnOpt(spPkg, name)
+		if f == nil {
+			continue
+		}
+		c.FuncsSeen[fname(f)] = true
+		var lock ssa.Instruction
+		var drops []*ssa.Call
+		allInstrs(f, func(in ssa.Instruction) {
+			cc := callCommon(in)
+			if cc == nil {
+				return
+			}
+			if _, op, ok := mutexOp(cc); ok && op == "Lock" {
+				if _, isDefer := in.(*ssa.Defer); !isDefer && lock == nil {
+					lock = in
+				}
+				return
+			}
+			cl, ok := in.(*ssa.Call)
+			if !ok {
+				return
+			}
+			h := staticCallee(cc)
+			if h == nil {
+				return
+			}
+			if h.Name() == "Reset" && h.Signature.Recv() != nil && strings.Contains(h.Signature.Recv().Type().String(), "subprocess.command") {
+				drops = append(drops, cl)
+			} else if inPkg(spPkg)(h) && strings.Contains(fname(h), "Subprocess") && resets(h, 1) {
+				drops = append(drops, cl)
+			}
+		})
+		key := fname(f) + "/command-dropped-only-when-not-running"
+		if len(drops) == 0 {
+			c.ok("P13", key, c.pos(f.Pos()), "the kept command is not reset on this path")
+			continue
+		}
+		isOnUnderLock := func(v ssa.Value) bool {
+			cl, ok := v.(*ssa.Call)
+			if !ok {
+				return false
+			}
+			h := staticCallee(&cl.Call)
+			if h == nil || h.Name() != "IsOn" || !strings.Contains(fname(h), "Subprocess") {
+				return false
+			}
+			return lock == nil || dominates(lock, cl)
+		}
+		bad := ""
+		for _, d := range drops {
+			if !onBoolSide(d, false, isOnUnderLock) {
+				bad = c.ipos(d)
+			}
+		}
+		c.check(bad == "", "P13", key, c.ipos(drops[0]), "the kept command is reset only where IsOn() answered false under the lock",
+			"the kept command is reset at "+bad+" without the subprocess having been found not running under the lock: two Start() calls that both passed the first, unlocked look at IsOn() — the second resets the command of the tree the first has just started and returns as a no-op; from then on Stop() and Restart() build a fresh command that was never started, kill nothing and wait for nothing, and the tree keeps running")
+	}
 }
